@@ -1245,6 +1245,15 @@ class C15Monitor(Monitor):
             if (eq, st, fi) != (acc, self.n_start, self.n_finish):
                 f.fail('C15.d', f'work order records enter/start/finish = {(eq, st, fi)}, occurrences = '
                        f'{(acc, self.n_start, self.n_finish)}', 'work_orders')
+        for i, s in enumerate(f.scheds):
+            # one schedule record per state change (= one action call on the single registered object), same time and state
+            recs = sd.get('schedule_update', {}).get(s.name, [])
+            log = f.sched_log[i]
+            if [tuple(r) for r in recs] != [(c[1], c[2]) for c in log] or any(c[0] != c[1] for c in log):
+                f.fail('C15.d', f'scheduler {s.name}: {len(recs)} schedule_update records {list(recs)[-3:]}, {len(log)} state '
+                       f'changes observed {[(c[1], c[2]) for c in log][-3:]}', 'schedule_records')
+            if log:
+                f.bump(f.stats['reach'], 'schedule_records_compared')
         self.ev(f, 'C15')
 
     def after_simulate(self, f):
